@@ -175,6 +175,33 @@ def dynamic_part(res, ctx, names):
                 res.violation('c17-twin-rendering', f'{base}: {a} vs {name}: {b} on start={start} end={end}',
                               {'name': name, 'start': start, 'end': end})
                 break
+        # small negative numbers in every word of the START and of the END (domain.SENTINEL_WORDS: -1 .. -8 as 32- and as
+        # 64-bit values - AT_FDCWD, invalid descriptors ...): a decoder that names one of them still serves both twins
+        for pos in range(8):
+            for w in domain.SENTINEL_WORDS:
+                start = domain.gen_words(rng, base, 'S')
+                end = [0] + domain.gen_words(rng, base, 'E')[1:]
+                if pos < 4:
+                    if ('S', pos) in domain.TABLE.get(base, {}):
+                        continue
+                    start[pos] = w
+                else:
+                    if ('E', pos - 4) in domain.TABLE.get(base, {}):
+                        continue
+                    end[pos - 4] = w
+                try:
+                    a = render(base, start, end, [H.PATHS[0]])
+                    b = render(name, start, end, [H.PATHS[0]])
+                except Exception as x:
+                    res.violation(f'c17-raises-{core.exc_name(x)}', f'{name}: {x!r}', {'name': name, 'start': start, 'end': end})
+                    break
+                res.case((name, 'sentinel', pos, w))
+                res.count('twin_sentinel_renderings_compared')
+                if len(a) != 1 or len(b) != 1 or b[0].replace('_nocancel', '', 1) != a[0] or '_nocancel' not in b[0] \
+                        or '_nocancel' in a[0]:
+                    res.violation('c17-twin-rendering', f'{base}: {a} vs {name}: {b} on start={[hex(x) for x in start]} '
+                                  f'end={[hex(x) for x in end]}', {'name': name, 'start': start, 'end': end})
+                    break
         # words outside the enum a decoder names: whatever happens must happen to both twins alike (the same exception,
         # or renderings that differ by the suffix only)
         for idx2, allowed in domain.enum_positions(base).items():
